@@ -74,7 +74,9 @@ theorem run_openat2_root (hw : w.WF) (path : Bytes) (hnul : path.contains 0 = fa
   simp only [hnul, Bool.false_eq_true, ↓reduceIte, M.bind_def, run_bind'_simp, run_do_liftE, h0, run_mcall_simp,
     World.answer, tree_ne_proc hw.root_tree, tree_ne_ts hw.root_tree, toCString_id path hnul, h1, h2, h3, h4, true_and,
     and_self, kcfgK]
-  cases resolveInRoot w _ path <;> simp [toOut]
+  have hok : ∀ k, openKind k ((if nofollow then O_PATH ||| O_NOFOLLOW else O_PATH) ||| O_CLOEXEC) = .ok () := by
+    intro k; cases k <;> cases nofollow <;> rfl
+  cases resolveInRoot w _ path <;> simp [toOut, hok]
 
 theorem run_openat2_resolve (hw : w.WF) (path : Bytes) (hnul : path.contains 0 = false) (rflags : Nat)
     (nofollow : Bool) :
